@@ -11,11 +11,13 @@ pub struct Choppy {
     mask: u64,
     chunk: usize,
     pub reads: usize,
+    /// every n-th read call fails with ErrorKind::Interrupted first (0 = never): std's contract says retry
+    pub interrupt_every: usize,
 }
 
 impl Choppy {
     pub fn new(data: Vec<u8>, mask: u64, chunk: usize) -> Choppy {
-        Choppy { data, pos: 0, mask, chunk: chunk.max(1), reads: 0 }
+        Choppy { data, pos: 0, mask, chunk: chunk.max(1), reads: 0, interrupt_every: 0 }
     }
     pub fn position(&self) -> usize {
         self.pos
@@ -25,6 +27,9 @@ impl Choppy {
 impl Read for Choppy {
     fn read(&mut self, buf: &mut [u8]) -> Result<usize> {
         self.reads += 1;
+        if self.interrupt_every > 0 && self.reads % self.interrupt_every == 0 {
+            return Err(std::io::Error::new(std::io::ErrorKind::Interrupted, "verif: interrupted"));
+        }
         let left = self.data.len().saturating_sub(self.pos);
         let mut n = buf.len().min(left).min(self.chunk);
         if n == 0 {
@@ -44,6 +49,56 @@ impl Read for Choppy {
 }
 
 impl Seek for Choppy {
+    fn seek(&mut self, to: SeekFrom) -> Result<u64> {
+        let np: i64 = match to {
+            SeekFrom::Start(x) => x as i64,
+            SeekFrom::Current(d) => self.pos as i64 + d,
+            SeekFrom::End(d) => self.data.len() as i64 + d,
+        };
+        if np < 0 {
+            return Err(std::io::Error::new(std::io::ErrorKind::InvalidInput, "seek before start"));
+        }
+        self.pos = np as usize;
+        Ok(self.pos as u64)
+    }
+}
+
+/// A writer that accepts at most `chunk` bytes per `write` call (and may be interrupted).
+#[derive(Debug, Clone)]
+pub struct ChoppyWriter {
+    pub data: Vec<u8>,
+    pos: usize,
+    chunk: usize,
+    calls: usize,
+    pub interrupt_every: usize,
+}
+
+impl ChoppyWriter {
+    pub fn new(chunk: usize, interrupt_every: usize) -> ChoppyWriter {
+        ChoppyWriter { data: vec![], pos: 0, chunk: chunk.max(1), calls: 0, interrupt_every }
+    }
+}
+
+impl std::io::Write for ChoppyWriter {
+    fn write(&mut self, buf: &[u8]) -> Result<usize> {
+        self.calls += 1;
+        if self.interrupt_every > 0 && self.calls % self.interrupt_every == 0 {
+            return Err(std::io::Error::new(std::io::ErrorKind::Interrupted, "verif: interrupted"));
+        }
+        let n = buf.len().min(self.chunk);
+        if self.pos + n > self.data.len() {
+            self.data.resize(self.pos + n, 0);
+        }
+        self.data[self.pos..self.pos + n].copy_from_slice(&buf[..n]);
+        self.pos += n;
+        Ok(n)
+    }
+    fn flush(&mut self) -> Result<()> {
+        Ok(())
+    }
+}
+
+impl Seek for ChoppyWriter {
     fn seek(&mut self, to: SeekFrom) -> Result<u64> {
         let np: i64 = match to {
             SeekFrom::Start(x) => x as i64,
